@@ -5,6 +5,7 @@ import (
 	"math"
 	"strconv"
 	"strings"
+	"time"
 
 	"github.com/osteele/liquid"
 	"verifmc/explore"
@@ -221,6 +222,42 @@ func c09Families(tier string) []explore.Family {
 		}
 	}})
 
+	// what == says about two values is what it says about arrays holding them, and what contains says about
+	// membership - also for operands outside the six kinds (times: one instant read in two zones, a pointer to a
+	// time; structs built twice; named types), where no reference rule applies but the clauses still tie the three
+	utc := time.Date(2024, 3, 1, 12, 0, 0, 0, time.UTC)
+	type cohVal struct {
+		name  string
+		build func() any
+	}
+	var coh []cohVal
+	for _, v := range c09.u {
+		coh = append(coh, cohVal{v.Name, v.Build})
+	}
+	coh = append(coh,
+		cohVal{"time_utc", func() any { return utc }}, cohVal{"time_same_instant_other_zone", func() any { return utc.In(time.FixedZone("X", 2*3600)) }},
+		cohVal{"time_later", func() any { return utc.Add(time.Hour) }}, cohVal{"time_pointer", func() any { t := utc; return &t }},
+		cohVal{"time_local_zone", func() any { return utc.In(time.Local) }}, cohVal{"time_with_monotonic", func() any { return time.Now() }},
+		cohVal{"struct", func() any { return univ.Plain{A: 1, B: "x"} }}, cohVal{"struct_other", func() any { return univ.Plain{A: 2, B: "x"} }},
+		cohVal{"struct_pointer", func() any { return &univ.Plain{A: 1, B: "x"} }}, cohVal{"named_string", func() any { return univ.NamedString("a") }},
+		cohVal{"named_int", func() any { return univ.NamedInt(3) }}, cohVal{"duration", func() any { return time.Duration(3) }})
+	C := len(coh)
+	fams = append(fams, explore.Family{Name: "equality-of-values-and-of-arrays-holding-them", Count: int64(C * C), Run: func(i int64, r *explore.Rec) {
+		A, B := coh[int(i)/C], coh[int(i)%C]
+		if A.name == "time_with_monotonic" && B.name == "time_with_monotonic" {
+			return // two readings of the clock
+		}
+		a, b := A.build(), B.build()
+		bind := map[string]any{"a": a, "b": b, "la": []any{a}, "lb": []any{b}, "lla": []any{[]any{a}}, "llb": []any{[]any{b}}}
+		r.Eval()
+		r.Transition()
+		o := Render(c09.eng, "{% if a == b %}T{% else %}F{% endif %}{% if la == lb %}T{% else %}F{% endif %}{% if la contains b %}T{% else %}F{% endif %}{% if lla == llb %}T{% else %}F{% endif %}{% if la != lb %}F{% else %}T{% endif %}", bind)
+		r.Class("coherent/" + o.Out)
+		r.State("coherence")
+		if o.Panic != nil || o.Err != nil || (o.Out != "TTTTT" && o.Out != "FFFFF") {
+			r.Violation("law:array-equality-is-element-wise", map[string]any{"a": A.name, "b": B.name, "template": "a == b | [a] == [b] | [a] contains b | [[a]] == [[b]] | not([a] != [b])"}, "five equal answers", o.String())
+		}
+	}})
 	// the same relations spelled with literals (where both operands have a literal form)
 	var lits []univ.Val
 	for _, v := range c09.u {
